@@ -411,13 +411,13 @@ class World:
         mrel = self._rel(mpath)
         if fired in ("write_enospc", "write_partial"):
             return [("nonzero",)]
-        if fired in ("read_eio:model", "read_eacces:model", "vanish:model"):
+        if fired in ("read_eio:model", "read_eacces:model", "vanish:model", "vanish_at_open:model"):
             return [("failure",)]
         data = pre.get(mrel)
         if data is None:
             return [("failure",)]  # missing, or a directory
         exps = []
-        for cfg in self.config_candidates(op, pre, fired in ("read_eio:config", "read_eacces:config", "vanish:config")):
+        for cfg in self.config_candidates(op, pre, fired in ("read_eio:config", "read_eacces:config", "vanish:config", "vanish_at_open:config")):
             if cfg is FAIL:
                 exps.append(("failure",))
                 continue
@@ -540,7 +540,7 @@ class World:
             target = os.path.realpath(cwd / cfgp) if cfgp else os.path.realpath(self.proj / "pyproject.toml")
         else:
             target = None
-        return {"kind": self.armed["kind"], "target": target, "which": which}
+        return {"kind": self.armed["kind"], "target": target, "which": which, "under": os.path.realpath(self.proj)}
 
     def _run_inproc(self, op, argv, fault) -> tuple[int, int]:
         import typer.main
@@ -603,6 +603,7 @@ class World:
             f2 = dict(fault)
             if f2.get("target"):
                 f2["target"] = os.path.realpath(str(f2["target"]).replace(os.path.realpath(self.proj), os.path.realpath(mproj), 1))
+            f2["under"] = os.path.realpath(mproj)
         plan = mroot / "plan.json"
         with open(plan, "w") as fh:
             fh.write(json.dumps({"argv": argv, "fault": f2, "sympy_seed": self.sympy_seed}))
